@@ -79,19 +79,18 @@ def compare(ctx, akind, bkind, same, ylo, yhi):
     ctx.observe("c", [ite(a < b, 1, 0), ite(a == b, 1, 0)])
 
 
-def subtract(ctx, akind, bkind, ylo, yhi):
+def subtract(ctx, akind, bkind, how, ylo, yhi):
     with cut(ctx, "pendulum.interval", "precise_diff", _no_breakdown):
         P = ctx.P
         a, tzA, TsA, offsA, ua, usa = valid_source(ctx, akind, ylo, yhi, p="a", key="Verif/A")
         b, tzB, TsB, offsB, ub, usb = valid_source(ctx, bkind, ylo, yhi, p="b", key="Verif/B")
         na, nb = _native(ctx, a), _native(ctx, b)
         ref = td_us(ctx, nb - na)
-        ctx.claim("DateTime - DateTime == native - native", td_us(ctx, b - a) == ref)
-        ctx.claim("DateTime - native == native - native", td_us(ctx, b - na) == ref)
-        ctx.claim("native - DateTime == native - native", td_us(ctx, nb - a) == ref)
-        ctx.claim("returns an Interval", isinstance(b - a, P.Interval))
-        ctx.reach("native operand")
-        ctx.observe("d", list(native_triple(ctx, b - a)))
+        r = {"dt-dt": lambda: b - a, "dt-native": lambda: b - na, "native-dt": lambda: nb - a}[how]()
+        ctx.claim(f"{how} == native - native", td_us(ctx, r) == ref)
+        ctx.claim("returns an Interval", isinstance(r, P.Interval))
+        ctx.reach("native operand", how != "dt-dt")
+        ctx.observe("d", list(native_triple(ctx, r)))
 
 
 def returns(ctx, kind, ylo, yhi):
@@ -152,10 +151,11 @@ def cases(tier):
         w = zw if "zone" in (ak, bk) else win
         out.append(dict(name=f"compare {ak}/{bk}", fn=compare, params=dict(akind=ak, bkind=bk, same=False, ylo=w[0], yhi=w[1]),
                         bounds=f"every pair of valid DateTimes ({ak} x {bk}, different tzinfo objects) in years {w[0]}..{w[1]}"))
-    for ak, bk in (("zone", "utc"), ("fixed", "fixed"), ("zone", "zone")):
-        w = zw if "zone" in (ak, bk) else win
-        out.append(dict(name=f"subtract {ak}/{bk}", fn=subtract, params=dict(akind=ak, bkind=bk, ylo=w[0], yhi=w[1]),
-                        bounds=f"every pair of valid DateTimes ({ak} x {bk}) in years {w[0]}..{w[1]}"))
+    for ak, bk in ((("zone", "utc"), ("fixed", "fixed")) if tier == "quick" else (("zone", "utc"), ("fixed", "fixed"), ("zone", "zone"))):
+        for how in ("dt-dt", "dt-native", "native-dt"):
+            w = zw if "zone" in (ak, bk) else win
+            out.append(dict(name=f"subtract {how} {ak}/{bk}", fn=subtract, params=dict(akind=ak, bkind=bk, how=how, ylo=w[0], yhi=w[1]),
+                            bounds=f"every pair of valid DateTimes ({ak} x {bk}) in years {w[0]}..{w[1]}"))
     for kind in ("zone", "utc", "fixed"):
         w = zw if kind == "zone" else win
         out.append(dict(name=f"return types {kind}", fn=returns, params=dict(kind=kind, ylo=w[0], yhi=w[1]),
